@@ -1,32 +1,32 @@
 package vc
 
 import (
-	"os"
-	"runtime/debug"
-	"runtime"
-	"time"
 	"fmt"
 	"go/token"
 	"go/types"
+	"os"
+	"runtime"
+	"runtime/debug"
 	"sort"
 	"strings"
+	"time"
 
 	"golang.org/x/tools/go/ssa"
 )
 
 type FuncResult struct {
-	Key          string
-	Pos          string
-	Obligations  []*Obligation
-	Paths        int
-	Unsupported  []string
-	Inlined      []string
-	LibCalls     []string
-	Unmodelled   []string
+	Key           string
+	Pos           string
+	Obligations   []*Obligation
+	Paths         int
+	Unsupported   []string
+	Inlined       []string
+	LibCalls      []string
+	Unmodelled    []string
 	ContractsUsed []string
-	TrustedUsed  []string
-	Error        string
-	Returns      int
+	TrustedUsed   []string
+	Error         string
+	Returns       int
 }
 
 // IndexFunctions builds the key -> function map for module functions (incl. closures, generic instances).
@@ -550,7 +550,8 @@ func (ex *Exec) havocModified(st *State, v Value, instr ssa.Instruction) {
 	case *VSlice:
 		// the callee writes the caller's row: the caller must itself be allowed to
 		ex.checkWritable(st, x.Ref, instr)
-		for key, h := range st.heaps {
+		for _, key := range sortedKeys(st.heaps) {
+			h := st.heaps[key]
 			if strings.HasPrefix(key, "H") {
 				st.heaps[key] = Store(h, x.Ref, ex.fresh("row", h.Sort.Elem()))
 			}
